@@ -1,12 +1,13 @@
 (** Dispatch table used by the extracted runner: property number -> model runner / monitor. *)
 From RRE Require Import Base.Sx.
-From RRE Require Model.Watermark Model.Tms Model.ProofGraph Model.Undo Model.Module Model.Window Model.Join Model.KB Model.Index Model.State Model.ReteAgenda Model.EngineConc Model.Parallel Model.Incremental.
+From RRE Require Model.Watermark Model.Tms Model.ProofGraph Model.Undo Model.Module Model.Window Model.Join Model.KB Model.Index Model.State Model.ReteAgenda Model.EngineConc Model.Parallel Model.Incremental Model.ExprShape.
 Open Scope Z_scope.
 
 Definition run_by_id (id : Z) (c : sx) : sx :=
   match id with
   | 2 => EngineConc.run_sx c
   | 3 => EngineConc.run_sx c
+  | 5 => ExprShape.run_sx c
   | 6 => Incremental.run_sx c
   | 7 => ReteAgenda.run_sx c
   | 8 => Tms.run_sx c
@@ -31,6 +32,7 @@ Definition ok_by_id (id : Z) (c o : sx) : Z :=
   match id with
   | 2 => b2z (EngineConc.ok_sx c o)
   | 3 => b2z (EngineConc.ok_sx c o)
+  | 5 => ExprShape.ok_sx c o
   | 6 => b2z (Incremental.ok_sx c o)
   | 7 => b2z (ReteAgenda.ok_sx c o)
   | 8 => b2z (Tms.ok_sx c o)
